@@ -337,6 +337,10 @@ pub fn specials() -> Vec<Spec> {
         // predicate and object with the same digest in different obscuration states
         n(l(1), vec![a(el(l(2)), l(2)), a(l(3), co(l(3)))]),
         a(en(l(1)), l(1)),
+        // a bare wrapper whose content is obscured as a whole
+        w(el(l(1))),
+        w(el(n(l(1), vec![a(l(2), l(3))]))),
+        w(co(n(l(1), vec![a(l(2), l(3))]))),
     ]
 }
 
